@@ -17,7 +17,7 @@ from vf import common, htf, progs
 
 PID = 'C09'
 TS_MODES = ['none', 'dut', 'lambda', 'raise']
-X_MODES = ['ok', 'fail', 'raise', 'hang', 'skip', 'plugfail', 'abort', 'reenter', 'setdut', 'cbreenter', 'abort_runif', 'sysexit']
+X_MODES = ['ok', 'fail', 'raise', 'hang', 'skip', 'plugfail', 'abort', 'reenter', 'setdut', 'cbreenter', 'abort_runif', 'sysexit', 'sigint']
 
 
 class CbBoom(Exception):
@@ -69,6 +69,15 @@ def build_test(state):
       t.start()
       while True:
         time.sleep(0.0005)
+    if mode == 'sigint':
+      # a real Ctrl-C while the test runs and is registered for it; the wind-down (teardown phase below) then takes
+      # longer than cancel_timeout_s
+      import os, signal  # pylint: disable=g-import-not-at-top,multiple-imports
+      while not h.Test.TEST_INSTANCES:
+        time.sleep(0.001)
+      os.kill(os.getpid(), signal.SIGINT)
+      while True:
+        time.sleep(0.0005)
     if mode == 'reenter':
       try:
         state['test'].execute()
@@ -79,6 +88,9 @@ def build_test(state):
 
   def t(test):
     state['log'].append(('teardown_phase',))
+    if state['plan'][1] == 'sigint':
+      time.sleep(0.15)
+    state['log'].append(('teardown_phase_end',))
 
   def y_run_if():
     # an abort that arrives between two phases: issued (synchronously) while the executor decides whether to run y
@@ -116,7 +128,8 @@ def expected_outcome(plan):
   if tsm == 'raise':
     return 'ERROR'
   return {'ok': 'PASS', 'setdut': 'PASS', 'fail': 'FAIL', 'raise': 'ERROR', 'hang': 'TIMEOUT', 'skip': 'PASS',
-          'plugfail': 'ERROR', 'abort': 'ABORTED', 'reenter': 'PASS', 'cbreenter': 'PASS', 'abort_runif': 'ABORTED', 'sysexit': 'ERROR'}[xm]
+          'plugfail': 'ERROR', 'abort': 'ABORTED', 'reenter': 'PASS', 'cbreenter': 'PASS', 'abort_runif': 'ABORTED', 'sysexit': 'ERROR',
+          'sigint': 'ABORTED'}[xm]
 
 
 def check_record(rec, plan, state_at_cb):
@@ -199,7 +212,7 @@ def run_history(hist, raising):
     # every run of a history is configured differently: the record must carry *this* run's name and configuration
     name, station = 'c09test-%d' % run_idx, 'station-%d' % run_idx
     test.configure(name=name)
-    conf.load(station_id=station)
+    conf.load(station_id=station, cancel_timeout_s=0.02 if plan[1] == 'sigint' else 2)
     EXPECT_MD[0] = (name, station)
     state['plan'] = plan
     del state['log'][:]
@@ -211,6 +224,16 @@ def run_history(hist, raising):
       exc = e
     h.Test.HANDLED_SIGINT_ONCE = False
     tag = 'run%d:%s/%s' % (run_idx, plan[0], plan[1])
+    if plan[1] == 'sigint' and plan[0] != 'raise':
+      # execute() may end by re-raising KeyboardInterrupt: even then the record handed out is complete and final
+      if exc is not None and not isinstance(exc, KeyboardInterrupt):
+        viols.append(('execute-raised', '%s: execute() raised %r' % (tag, exc)))
+        break
+      if calls and ('teardown_phase_end',) not in state['log'][:]:
+        viols.append(('record-before-wind-down', '%s: output callbacks ran before the teardown phase had finished' % tag))
+      if calls and not any(p.name == 't' for p in calls[0][1].phases):
+        viols.append(('teardown-record-missing', '%s: the record handed to the callbacks lacks the teardown phase' % tag))
+      exc = None
     if exc is not None:
       viols.append(('execute-raised', '%s: execute() raised %r' % (tag, exc)))
       break
